@@ -51,7 +51,7 @@ RULE = ("correspondence: every (value, bits 1..8, byte order, (width,minwidth) i
         "direct oracle: the same inputs against the property statement with independent reference codecs; negative values in a watchdog "
         "subprocess; hand-built tags: v2.2 {whole-tag unsynchronisation} (6-byte frame headers: MCI = the payload itself, UFI, TT2, TP1, PIC), v2.3 {whole-tag unsynchronisation} x {plain, compressed frames (4-byte size + zlib)} and v2.4 {tag-level flag} x "
         "{frame flag} x {plain, data length indicator, zlib + data length indicator, zlib without the indicator flag}, zlib streams from "
-        "Python's zlib at levels 0/6/9, with a sync flush (00 00 FF FF inside) and from a hand-made stored-block writer (NLEN = FF..), "
+        "Python's zlib at levels 0/6 (9 in the mixtures), with a sync flush (00 00 FF FF inside) and from a hand-made stored-block writer (NLEN = FF..), "
         "padded and unpadded, plus random per-frame mixtures; payloads = every alphabet string to length 3 (quick) / 4, long FF runs, "
         "FF 00 runs, random alphabet and random byte strings; five/six frames per tag (MCDI = the payload itself, PRIV x2, UFID, TIT2 "
         "UTF-16 with BOM, TPE1 latin-1) must read back exactly and like the flag-free tag. "
@@ -781,9 +781,9 @@ def uniform_layouts():
     for tu in (0, 1):
         out.append(L(2, tu, 0, None, 0))
         out.append(L(2, tu, 0, None, 0, 7))
-        out.append(L(2, tu, 0, None, 0, 1))
+    zmodes = tuple(z for z in ZMODES if z != "z9")    # (level 9 only in the random per-frame mixtures)
     for tu in (0, 1):
-        for zm in (None,) + ZMODES:
+        for zm in (None,) + zmodes:
             out.append(L(3, tu, 0, zm, 0))
         out.append(L(3, tu, 0, None, 0, 7))
         out.append(L(3, tu, 0, "hand", 0, 7))
@@ -791,7 +791,7 @@ def uniform_layouts():
         for fu in (0, 1):
             out.append(L(4, tu, fu, None, 0))
             out.append(L(4, tu, fu, None, 1))
-            for zm in ZMODES:
+            for zm in zmodes:
                 out.append(L(4, tu, fu, zm, 1))
             out.append(L(4, tu, fu, "z6", 0))     # compression flag without the data length flag: the reader
             out.append(L(4, tu, fu, "hand", 0))   # still skips the four bytes
